@@ -124,7 +124,18 @@ func c07Judge(raw string, u *j.URL) (string, string) {
 			if r == nil || rel.ToType != r.Target || rel.ToOne != r.ToOne {
 				kind := "wrong-rel"
 				if rel == (j.Rel{}) {
+					// the recorded finding needs two unknown paths in one request; a zero Rel without
+					// them is something else
 					kind = "zero-rel"
+					unknown := 0
+					for _, rq := range requested {
+						if !validPath(rq) {
+							unknown++
+						}
+					}
+					if unknown < 2 {
+						kind = "zero-rel-without-two-unknown-paths"
+					}
 				}
 				return "include-not-a-chain:" + kind, fmt.Sprintf("inclusion path %d, step %d (%s) is not a relationship of type %q (requested include=%v)", i, k, showRel(rel), cur.Name, requested)
 			}
